@@ -208,6 +208,8 @@ def prop_autoflow(r):
     # iteration bounds from the recipe (independent of the dialect's own bound inference)
     if r["kind"] == "alu":
         ob = list(r["shape"])
+    elif r["kind"] == "rescale":
+        ob = [r["M"], r["K"]]
     elif r["kind"] in ("matmul", "gemm"):
         ob = [r["M"], r["N"], r["K"]]
     else:
